@@ -14,6 +14,12 @@ Three kinds of cases
          calls are replayed through the Coq wrapper model (event structure, number of calls, flush count).
   bad    malformed input (a str among the chunks for compress; garbage / corrupted / concatenated
          streams for decompress): model comparison only.
+  resub  RE-SUBSCRIPTION: one operator / one piped observable (source.pipe(wrapper())) is built ONCE and
+         subscribed two or three times - one subscription after the other, after a first subscription that
+         was disposed early, or with two subscriptions alive at once (chunks interleaved) - every subscription
+         with its own payload.  Every subscription is a stream in its own right and is judged by the same
+         model-free oracle as a first subscription (valid standalone file, round trip, truncation flagged);
+         the recorded codec calls of one completed subscription are replayed through the Coq wrapper model.
 """
 import contextlib
 import gzip
@@ -36,7 +42,8 @@ RULE = ('toy cases: source chunk lists over a small alphabet, compressed by the 
         'every truncation point of short streams (one chunk and two chunks each), sampled truncation points '
         'of long ones; all 2-cut re-chunkings of short streams. non-trivial = a real-codec case with non-empty '
         'data whose compressed stream is cut into >= 2 chunks or truncated, or a toy case with >= 2 chunks on '
-        'each side; distinct = distinct case JSON')
+        'each side, or a resub case with a non-empty payload in a subscription after the first; distinct = distinct '
+        'case JSON')
 TRUSTED = ['NOT modelled: zlib and zstandard (C libraries). They enter the Coq theorems as Section variables '
            'cstep/cflush/dstep/deof/dflush constrained by the named hypotheses H1 (decoder output, raising and '
            'eof depend only on the concatenation fed, on prefixes of encoder output), H2 (decode(encode whole) = '
